@@ -189,8 +189,11 @@ pub fn run(cfg: &Cfg, rep: &mut Report) {
                     check_factory::<RawShortMessage>("Raw", false, s, d1, d2, rep);
                     check_factory::<StructuredShortMessage>("Structured", true, s, d1, d2, rep);
                     check_factory::<Foreign>("Foreign", false, s, d1, d2, rep);
+                    // implementors that rely on the contract of from_bytes_unchecked
+                    check_factory::<ForeignEvent>("ForeignEvent", true, s, d1, d2, rep);
+                    check_factory::<ForeignPacked>("ForeignPacked", false, s, d1, d2, rep);
                     check_raw_extra(s, d1, d2, rep);
-                    evals += 4;
+                    evals += 6;
                     if s >= 0x80 {
                         if d1 != 0 || d2 != 0 {
                             nontrivial += 1;
@@ -329,6 +332,8 @@ pub fn miri_slice(rep: &mut Report) {
                 check_factory::<RawShortMessage>("Raw", false, s, d1, d2, rep);
                 check_factory::<StructuredShortMessage>("Structured", true, s, d1, d2, rep);
                 check_factory::<Foreign>("Foreign", false, s, d1, d2, rep);
+                check_factory::<ForeignEvent>("ForeignEvent", true, s, d1, d2, rep);
+                check_factory::<ForeignPacked>("ForeignPacked", false, s, d1, d2, rep);
                 check_raw_extra(s, d1, d2, rep);
                 if s >= 0x80 && canon(s, d1, d2) == (s, d1, d2) {
                     check_structured_value(s, d1, d2, rep);
